@@ -877,6 +877,19 @@ fn build(progs: &[(String, String)]) -> Result<(), String> {
     }
     std::fs::copy(harness_dir().join("mac").join("sup.rs"), dir.join("src").join("sup.rs")).map_err(|e| e.to_string())?;
     let target = harness_dir().join("target-mac").join("target");
+    // binaries and object files of earlier programs are never reused (every program is new):
+    // remove them so that long runs do not fill the disk; divan and its dependencies stay
+    for dir in [target.join("debug"), target.join("debug").join("deps")] {
+        if let Ok(rd) = std::fs::read_dir(&dir) {
+            for e in rd.flatten() {
+                let name = e.file_name().to_string_lossy().to_string();
+                let stem = name.split(|c| c == '-' || c == '.').next().unwrap_or("");
+                if stem.len() > 1 && stem.starts_with('p') && stem[1..].chars().all(|c| c.is_ascii_digit()) && e.path().is_file() {
+                    let _ = std::fs::remove_file(e.path());
+                }
+            }
+        }
+    }
     for (root, src) in progs {
         std::fs::write(bin.join(format!("{root}.rs")), src).map_err(|e| e.to_string())?;
         let _ = std::fs::remove_file(target.join("debug").join(root));
